@@ -341,8 +341,9 @@ type SearchResult struct {
 // any pair omission and/or duplication. Pairs must be common NeoFS indexes for
 // object header's fields. See [meta] (storage engine's package) for details.
 func MetaDataKVHandler(resHolder *SearchResult, attrGetter AttributeGetter, additionalCheck AdditionalObjectChecker, fs []SearchFilter, attrs []string, cursor *SearchCursor, count uint16) func(k, v []byte) bool {
-	primMatcher, _ := convertFilterValue(fs[0].SearchFilter)
+	primMatcher, primVal := convertFilterValue(fs[0].SearchFilter)
 	intPrimMatcher := IsIntegerSearchOp(primMatcher)
+	primPrefixFullScan := primMatcher == object.MatchCommonPrefix && prefixNeedsFullScan(fs[0].Header(), primVal)
 	idIter := len(attrs) == 0 || primMatcher == object.MatchNotPresent
 	var lastMatchedPrimKey []byte
 	var n uint16
@@ -405,6 +406,9 @@ func MetaDataKVHandler(resHolder *SearchResult, attrGetter AttributeGetter, addi
 					switch mch {
 					case object.MatchStringNotEqual, object.MatchNumGT, object.MatchNumGE:
 						return true
+					case object.MatchCommonPrefix:
+						// matching keys do not go one after another, see prefixNeedsFullScan
+						return primPrefixFullScan || prefixNeedsFullScan(attr, val)
 					default:
 						return false
 					}
@@ -695,6 +699,27 @@ func intMatches(dbVal signed256.Int, matcher object.SearchMatchType, fltVal *sig
 	}
 }
 
+// prefixNeedsFullScan reports whether objects whose attr has textual prefix
+// val are NOT a contiguous run of attr's index keys starting at a key
+// computable from val. This is the case for attributes indexed in binary form
+// but filtered by their Base58 or HEX text: a cut text is not a prefix of the
+// binary form.
+func prefixNeedsFullScan(attr, val string) bool {
+	switch attr {
+	case object.FilterOwnerID:
+		b, _ := base58.Decode(val)
+		return len(b) != user.IDSize
+	case object.FilterFirstSplitObject, object.FilterParentID, object.AttributeAssociatedObject:
+		b, _ := base58.Decode(val)
+		return len(b) != oid.Size
+	//nolint:staticcheck // this is not DB's responsibility to force API rules, DB still may have these values inside
+	case object.FilterPayloadChecksum, object.FilterPayloadHomomorphicHash:
+		_, err := hex.DecodeString(val)
+		return err != nil
+	}
+	return false
+}
+
 // PreprocessSearchQuery accepts verified search filters, requested attributes
 // along and continuation cursor, verifies the cursor and returns additional
 // arguments to pass into [DB.Search]. If the query is valid but unreachable,
@@ -714,7 +739,8 @@ func PreprocessSearchQuery(fs object.SearchFilters, attrs []string, cursor strin
 	primMatcher, primVal := convertFilterValue(fs[0])
 	oidSorted := len(attrs) == 0 || primMatcher == object.MatchNotPresent
 	var primValDB []byte
-	if !oidSorted && cursor == "" && primMatcher != object.MatchStringNotEqual && !IsIntegerSearchOp(primMatcher) {
+	if !oidSorted && cursor == "" && primMatcher != object.MatchStringNotEqual && !IsIntegerSearchOp(primMatcher) &&
+		!(primMatcher == object.MatchCommonPrefix && prefixNeedsFullScan(fs[0].Header(), primVal)) {
 		switch attr := fs[0].Header(); attr {
 		default:
 			primValDB = []byte(primVal)
